@@ -21,7 +21,7 @@ impl ForeignKeyBuilder for PostgresQueryBuilder {
                 sql,
                 "{}{}{}",
                 self.quote().left(),
-                name,
+                Alias::new(name).quoted(self.quote()),
                 self.quote().right()
             )
             .unwrap();
@@ -52,7 +52,7 @@ impl ForeignKeyBuilder for PostgresQueryBuilder {
                 sql,
                 "{}{}{} ",
                 self.quote().left(),
-                name,
+                Alias::new(name).quoted(self.quote()),
                 self.quote().right()
             )
             .unwrap();
